@@ -42,6 +42,7 @@ def X : Str → Str := Unicode.xnfkd
 def panicName : Panic → String
   | .divByZero => "divByZero" | .indexOutOfRange => "indexOutOfRange" | .makeNegative => "makeNegative"
   | .fillBytesOverflow => "fillBytesOverflow" | .sliceOutOfRange => "sliceOutOfRange" | .shiftOverflow => "shiftOverflow"
+  | .nilMapWrite => "nilMapWrite"
 def ioName : IoErr → String
   | .eof => "eof" | .unexpectedEof => "ueof" | .other c => s!"o{c}"
 def errName : Err → String
